@@ -82,7 +82,9 @@ def main():
         check.absorb(case, res, P.classify)
     if hasattr(P, "post"):
         P.post(check, cases, results)
-    return check.finish(P.rule, P.required, P.assumptions)
+    rule = P.rule + (" " + P.rule_extra if getattr(P, "rule_extra", None) else "") + \
+        " Every case runs under a terminal size / time zone / umask chosen from the case (environment:* counters)."
+    return check.finish(rule, P.required, P.assumptions)
 
 
 if __name__ == "__main__":
